@@ -165,7 +165,7 @@ def main():
         "engines": [{"name": "vf", "path": "/verif/vf", "serves_properties": [c["property_id"] for c in checks],
                      "kind_free_text": "contract-based deductive verification: Verus (unbounded) and Kani/CBMC (bit-precise; complete when loop-free/constant-bounded, else labelled bounded) on functions re-extracted mechanically from /repo on every run"}],
         "checks": checks,
-        "notes": "fix: commits in /repo: d99f5d1 (C08 Greedy::add_all), 547b267 (C10 check_time_windows), 56c7d53 (C10 E1103), adce926 (C17 lkh try_path). Known finding recorded, not repaired: F5 (C06 open-end gate), see known_findings.txt. Exit 2 of a check = undecided (lost anchor, unsupported construct, timeout), never an alarm.",
+        "notes": "fix: commits in /repo: d99f5d1 (C08 Greedy::add_all), 547b267 (C10 check_time_windows), 56c7d53 (C10 E1103), adce926 (C17 lkh try_path). Known findings recorded, not repaired: F5 (C06 open-end gate), F6 (C18 documented reward range), see known_findings.txt. Independent seeded changes and which checks catch them: seeded/<id>/meta.json, DESIGN.md 8.4 and 9.4. Exit 2 of a check = undecided (lost anchor, unsupported construct, timeout), never an alarm.",
         "not_applicable": na,
     }
     json.dump(m, open(os.path.join(VERIF, "MANIFEST.json"), "w"), indent=1)
